@@ -16,7 +16,8 @@ RULE = ('cases: one case = the whole observable outcome (event trace of fire/cal
         '15-letter alphabet {install at 1|2, install after 1, re-install, suspend, resume} x task + {advance 1, poll, run_once} '
         'with colliding times (quick: all of length <= 3 and a quarter of length 4), each followed by a flush; the same over 3 tasks one of which raises; random histories of length 200 over 4 tasks (raising / deferring '
         'callbacks, Defer, Poll, RunOnce, Run); (B) recurring tasks over interval/offset grids incl. 0.1 s, 0.3 s, 1/3 s with '
-        'small and epoch-sized clocks, on-time and late firing, compared by tick (small clocks) or slot index (epoch clocks); '
+        'small and epoch-sized clocks, on-time and late firing, compared by tick (small clocks) or slot index (epoch clocks), and the API refusals '
+        '(when=/delta= on a recurring task, resume before install, interval <= 0); '
         '(D) deferred batches of <= 6 with every raising subset, flat and self-deferring, through run_once and run.  '
         'non-trivial = at least one task fired or one deferred function was called; distinct by (config, op list).')
 TRUSTED = ['models coq/theories/Sched.v, Deferred.v written by hand after task.py:58-79,179-216,264-382 and core.py:123-233; tie = correspondence',
